@@ -96,6 +96,8 @@ def child(out_path):
         traces += tr
         hashobs += ho
     json.dump(vcommon.jsonable({"hashobs": hashobs,
+                                "sentinels": [t["sentinel"] for t in traces
+                                              if "sentinel" in t],
                                 "n": len(traces),
                                 "fits": sum(1 for t in traces
                                             for e in t["events"]
@@ -106,6 +108,7 @@ def child(out_path):
 def run(ctx):
     quick = ctx.tier == "quick"
     obs = []
+    sentinels = []
     fits = 0
     nhist = 0
     for seed in ((0, 4242) if quick else (0, 1, 4242)):
@@ -124,6 +127,7 @@ def run(ctx):
         for o in data["hashobs"]:
             o["seed"] = seed
         obs += data["hashobs"]
+        sentinels += data.get("sentinels", [])
         fits += data["fits"]
         nhist += data["n"]
     # random histories add observations from long-lived objects
@@ -136,6 +140,7 @@ def run(ctx):
     for o in ho:
         o["seed"] = int(os.environ.get("PYTHONHASHSEED", "0") or 0)
     obs += ho
+    sentinels += [t["sentinel"] for t in traces if "sentinel" in t]
     # distinct observations only (same state and hash seen twice is one)
     uniq = {}
     for o in obs:
@@ -145,7 +150,18 @@ def run(ctx):
     obs = [{k: o[k] for k in ("xy", "pipe_fp", "sett", "rx_hi", "edelta",
                               "hash", "cid", "reprs")}
            for o in uniq.values()]
-    failed, pairs, states = curve_check.validate(ctx, traces[:1], obs, "c12")
+    failed, pairs, states = curve_check.validate(ctx, traces[:1], obs, "c12",
+                                                 sentinels=sentinels)
+    if curve_check.SENTINEL_FAILED:
+        ctx.report("C12_ProcessHistoryFree|"
+                   + ",".join(curve_check.SENTINEL_FAILED),
+                   "default-everything fits on FRESH objects expose different "
+                   "hashes / results depending on what the process did before "
+                   "and on the interpreter's hash seed (fields that differ: "
+                   f"{list(curve_check.SENTINEL_FAILED)})",
+                   {"kind": "sentinel",
+                    "fields": list(curve_check.SENTINEL_FAILED)})
+    ctx.coverage["sentinel_runs"] = len(sentinels)
     ctx.tlc_states += states + len(obs)
     ctx.tlc_transitions += len(obs) * (len(obs) - 1) // 2
     ctx.traces = nhist + len(traces)
